@@ -1,21 +1,34 @@
 # C16 — additional-layer store: lookup / use / release in any order
 PROPS["C16"] = dict(
     props_file="Properties/C16.v",
-    harnesses=[dict(cmd="store", mod="root", model="Model.Store", quick=240, thorough=12000, shard=30,
+    harnesses=[dict(cmd="store", mod="root", model="Model.Store", quick=240, thorough=12000, shard=30, race=400,
                     require=["op.lookup.diff", "op.lookup.blob", "op.lookup.racing", "op.info", "op.use", "op.release",
-                             "op.loadref", "op.resolve", "op.probe", "fault.manifest", "fault.blob", "fault.blob.delivered",
-                             "result.lookup.ok", "result.lookup.fail.unknown", "result.lookup.fail.fault",
-                             "result.release.layerzero", "result.release.imagezero", "result.relookup.ok", "result.release.err"])],
-    rule="corpus of 7 hand-written histories + random histories (3..22 ops) of lookup(diff|blob) / info / use / release and the sub-steps of "
-         "getLayer (loadRef, one resolveLayer, getCachedLayer) over 1..3 images of 1..4 layers drawn from 5 eStargz blobs and 2 plain gzip blobs "
+                             "op.loadref", "op.resolve", "op.probe", "op.expire", "op.racerel", "fault.manifest", "fault.blob",
+                             "fault.blob.delivered", "result.lookup.ok", "result.lookup.fail.unknown", "result.lookup.fail.fault",
+                             "result.release.layerzero", "result.release.imagezero", "result.relookup.ok", "result.release.err",
+                             "result.racerel.gate", "result.racerel.dropped"]),
+               dict(cmd="storefs", mod="root", model="Model.StoreFS", quick=120, thorough=6000, shard=15, race=200,
+                    require=["op.lookup.diff", "op.lookup.blob", "op.lookup.info", "op.lookup.use", "op.lookup.other", "op.use",
+                             "op.createother", "op.rmdir", "op.badref", "op.baddigest", "op.pool", "op.expire", "fault.manifest",
+                             "fault.blob", "result.lookup.ok", "result.lookup.served-from-tree", "result.lookup.fail.unknown",
+                             "result.lookup.fail.fault", "result.rmdir.layerzero", "result.rmdir.imagezero", "result.relookup.ok"])],
+    rule="store: corpus of 9 hand-written histories + random histories (3..22 ops) of lookup(diff|blob) / info / use / release, the sub-steps of "
+         "getLayer (loadRef, one resolveLayer, getCachedLayer), expiry of the resolver's TTL caches, and a release scheduled (gate hook) between "
+         "cacheLayer and the end of a concurrent resolveLayer; storefs: corpus of 5 + random histories (3..20 client operations) on the FUSE "
+         "handlers through go-fuse's NodeFS bridge (path walk + stat diff|blob|info|use|other, creat use|other, rmdir, malformed ref and digest "
+         "names, pool, cache expiry); both over 1..3 images of 1..4 layers drawn from 5 eStargz blobs and 2 plain gzip blobs "
          "(shared between images), with unknown TOC digests, layer digests used as directory names, a non-existing image, manifest-fetch and "
          "blob-fetch faults scripted per op, groups of 2..4 lookups racing on one image; non-trivial = >= 3 op kinds and a successful lookup; "
          "distinct = distinct (registry, ops, observations)",
     assumptions=[
-        "every LayerManager method body is atomic under LayerManager.mu / refPool.mu; one resolveLayer call is treated as one atomic step "
-        "(exact for racing lookups: resolveLock serialises equal keys and different keys touch different memo entries; a release that lands "
-        "between cacheLayer and the memo write of a concurrent resolveLayer of the same image is outside the model)",
-        "fs/layer.Resolver: Resolve of a (ref, layer digest) resolved before succeeds from its TTL cache without contacting the registry; "
+        "every LayerManager method body is atomic under LayerManager.mu / refPool.mu; one resolveLayer call is one step: since C16-fix-4 its "
+        "effects on the manager (layer cached + success recorded, or error recorded) happen in ONE section under LayerManager.mu, resolveLock "
+        "serialises equal keys and different keys touch different memo entries; an error recorded late is the op list Expire; Resolve(fault); "
+        "the schedule 'release between cacheLayer and the end of resolveLayer' is driven on the implementation through the gate hook",
+        "FUSE: a client operation is the walk of Lookup requests for its path followed by the final request (no kernel dentry/attr caching, "
+        "no FORGET); go-fuse's NodeFS bridge dispatches the requests to the handlers and keeps persistent inodes until RmChild",
+        "fs/layer.Resolver: Resolve of a (ref, layer digest) resolved before succeeds from its TTL cache without contacting the registry "
+        "until the cache entry expires (the expiry is an op, driven on the implementation through the TTL-timer hook); "
         "otherwise it succeeds iff the blob fetch succeeds and the blob is eStargz, and the resulting layer's TOC digest is that of the blob",
         "layer.Verify(d) on a layer cached under TOC digest d succeeds (C01 is the property about Verify)",
         "refPool's LRU of 30 manifests never evicts in the histories driven (at most 4 refs); the manifest stays readable once fetched",
@@ -26,12 +39,18 @@ PROPS["C16"] = dict(
                "fold_left step): lookup fails for a digest the image lacks and succeeds for one it has whenever the registry answers and no earlier "
                "registry error for that layer is memoised (the memoised-error case is refuted and reported as known finding F26); use counts are >= 1 "
                "while tracked and never negative; a layer with outstanding uses stays cached; the release of the last use of an image drops all its "
-               "layers, counts and memo, after which every healthy lookup succeeds again. The model is run against the real LayerManager on random histories every run.",
+               "layers, counts and memo, after which every healthy lookup succeeds again. Phase 2: the FUSE handlers of store/fs.go refine the manager "
+               "(each handler step = at most one manager call named from the node tree, errno a function of its result; every handler history is a manager "
+               "history), so all clauses hold under the handlers, plus: a diff/blob node in the tree is always backed by a layer the manager holds (C16-fix-3; "
+               "refuted for the code before it, F27), the last rmdir of an image leaves no node of it and the next lookup is a manager lookup again; the pre-fix-4 "
+               "split of resolveLayer is refuted (F28) and the repaired schedule proved harmless. Both models are run against the implementation every run.",
     level_note="Model (coq/Model/Store.v) is hand-written; the implementation is driven in-package (verif hook) over a real fs/layer.Resolver with real "
-               "eStargz blobs, an in-memory registry (http.RoundTripper for manifests, remote.Handler for blobs); the FUSE node handlers of store/fs.go are "
-               "read, not driven (they add node caching on top of the manager calls modelled here); Go-level data races are outside the model.",
+               "eStargz blobs, an in-memory registry (http.RoundTripper for manifests, remote.Handler for blobs); the FUSE node handlers of store/fs.go are driven "
+               "through go-fuse's NodeFS bridge without a mount (no kernel, no dentry cache, no FORGET); Go-level data races are outside the model.",
     technique="Coq proof: invariant preserved by every op, lifted to all reachable states; correspondence by vm_compute on observed histories",
     trusted=["store.LayerManager/refPool are modelled by hand in coq/Model/Store.v; tie = per-op result class and the dump of layer / refcounter / "
              "resolveLayerCache / refPool.refcounter / manifests on disk after every op",
-             "store/fs.go handlers (base64 ref parsing, node caching, Rmdir/Create mapping to release/use) are not modelled"],
+             "store/fs.go handlers are modelled by hand in coq/Model/StoreFS.v; tie = errno class per client operation, the manager dump and the node "
+             "tree (ref directories, layer directories, diff/blob/info children with the info payload) after every operation; file contents behind diff "
+             "and blob nodes (fs/layer nodes, blobnode.Read) are not part of C16"],
 )
